@@ -1031,9 +1031,15 @@ func (m *Machine) timeNow(fn *ssa.Function) Value {
 	}
 	m.addPC(m.F.And(m.F.Bin(sym.OSLE, m.i64(lo), sec), m.F.Bin(sym.OSLE, sec, m.i64(hi))))
 	if m.clock != nil {
+		// non-decreasing instants: (sec, nsec) ordered lexicographically
+		// Componentwise non-decreasing (second and nanosecond part). This leaves out runs in which the second
+		// ticks over between two reads; harnesses that read the clock several times state that the reads fall
+		// into one wall-clock second, for which the model is exact.
 		m.addPC(m.F.Bin(sym.OSLE, m.clock, sec))
+		m.addPC(m.F.Bin(sym.OSLE, m.clockNs, nsec))
 	}
 	m.clock = sec
+	m.clockNs = nsec
 	const unixToInternal = (1969*365 + 1969/4 - 1969/100 + 1969/400) * 86400
 	ext := m.F.Bin(sym.OAdd, sec, m.i64(unixToInternal))
 	t := Struct{nsec, ext, (*Value)(nil)}
